@@ -160,11 +160,13 @@ def ensure_facts(cfg, log=sys.stderr):
         with open(stamp, "w") as fh:
             fh.write(json.dumps({"key": key, "cfg": cfg, "wall_s": time.time() - t0, "repo": repo}))
         log.write("[extract] cfg %s: %.1fs -> %s\n" % (cfg, time.time() - t0, out_dir))
-        # prune old fact dirs (keep the 6 most recent)
+        # prune old fact dirs: keep the 12 most recent and everything used in the last half hour
+        # (another check process may be about to read a directory it was just handed)
         fdir = os.path.join(CACHE, "facts")
         ds = sorted((os.path.getmtime(os.path.join(fdir, d)), d) for d in os.listdir(fdir))
-        for _, d in ds[:-12]:
-            shutil.rmtree(os.path.join(fdir, d), ignore_errors=True)
+        for mt, d in ds[:-12]:
+            if time.time() - mt > 1800:
+                shutil.rmtree(os.path.join(fdir, d), ignore_errors=True)
         return {w: os.path.join(out_dir, w + ".json") for w in wanted}, key
     finally:
         fcntl.flock(lock, fcntl.LOCK_UN)
